@@ -158,6 +158,9 @@ def alt_or_cat(draw, depth):
     xs = [draw(cat_node(depth)) for _ in range(n)]
     if n == 1:
         return xs[0]
+    # an empty alternative, first, last or in the middle: (|a) (a|) (a||b)
+    if draw(st.integers(0, 7)) == 0:
+        xs.insert(draw(st.integers(0, len(xs))), ["cat", []])
     return ["alt", xs]
 
 
@@ -231,7 +234,9 @@ def _parse(p):
     p.i += 1
     c2 = _parse(p)
     if c2 is None:
-        return c1
+        c2 = ["cat", []]        # an empty last alternative is an alternative: (a|)b matches b
+    if c1 is None:
+        c1 = ["cat", []]
     if c2[0] == "alt":
         return ["alt", [c1] + c2[1]]
     return ["alt", [c1, c2]]
